@@ -1251,7 +1251,8 @@ func (c *Client) RemoteUpdateMutations(
 
 	// execute or fallback
 	if !c.clockUpdateMutations(updates) {
-		c.Sync()
+		// full sync, outside the rpc read loop (the response is read by it)
+		go c.Sync()
 	}
 
 	return nil
